@@ -1,4 +1,6 @@
 import GomlVerif.Model.Infer
+import GomlVerif.Model.InferSpec
+import GomlVerif.Model.Wt
 import GomlVerif.Driver.Solve
 /-! driver for the model of the typer's constraint generation: lines `id<TAB>(fn NAME (n0 K) (params …) (ret ty)
 (funs …) (env …) (body EXPR))` are answered with `id<TAB>(result …)` in the format of `harness/src/infer.rs`
@@ -112,12 +114,152 @@ def runCase (c : Case) : Sexp :=
         tg "result" (pre ++ [tg "sdiags" (sd.map fun d => .atom d.name), tg "rest" (rest.map encConstraint),
                              tg "n2" [Sexp.ofNat σ'.n], tg "vars" (vs.map encTy), tg "final" fin])
 
+/-! ### Stage-3 oracle: the declarative judgement evaluated on the REAL final types (no model of inference) -/
+
+def lookupT (tab : List (Nat × Ty)) (i : Nat) : Option Ty := lookupScope i tab
+
+/-- a pattern annotated from the type it is matched against -/
+partial def annotPat : IPat → Ty → TPat
+  | .var x, vty => .var x vty
+  | .wild, vty => .wild vty
+  | .unit, _ => .lit .unit .unit
+  | .bool, _ => .lit .bool .bool
+  | .int, vty => .lit (if isIntegerTy vty then vty else .int 32 true) vty
+  | .str, _ => .lit .string .string
+  | .tuple ps, vty =>
+    let tys := match vty with
+      | .tuple tys => if tys.length = ps.length then tys else ps.map fun _ => Ty.unit
+      | _ => ps.map fun _ => Ty.unit
+    let tps := (ps.zip tys).map fun (p, t) => annotPat p t
+    .tuple tps (.tuple (ptysOf tps))
+
+def idOf : IExpr → Nat
+  | .lit i _ | .name i _ | .tuple i _ | .closure i _ _ | .letE i _ _ _ | .block i _ | .ite i _ _ _ | .while i _ _
+  | .call i _ _ | .un i _ _ | .bin i _ _ _ | .proj i _ _ | .field i _ _ | .matchE i _ _ => i
+
+mutual
+/-- the tree of the body with the REAL final type of every node (`none`: a node without a recorded type) -/
+partial def annot (tab : List (Nat × Ty)) : IExpr → Option TExpr
+  | .lit i _ => do pure (.prim (← lookupT tab i))
+  | .name i r => do
+      let ty ← lookupT tab i
+      match r with
+      | .loc x => pure (.lvar x ty)
+      | .defn h => pure (.gvar h ty)
+      | .unres (some h) => pure (.gvar h ty)
+      | _ => pure (.err ty)
+  | .tuple i items => do pure (.tuple (← optMapM (annot tab) items) (← lookupT tab i))
+  | .closure i params body => do
+      let ty ← lookupT tab i
+      let pts := match ty with
+        | .func ps _ => if ps.length = params.length then ps else []
+        | _ => []
+      if pts.length ≠ params.length then none
+      pure (.closure ((params.map (·.1)).zip pts) (← annot tab body) ty)
+  | .letE _ p ann v => do
+      let tv ← annot tab v
+      let vty := ann.getD tv.ty
+      pure (.letE (annotPat p vty) vty tv)
+  | .block i es => do
+      if es.isEmpty then pure (.prim (← lookupT tab i))
+      else pure (.block (← optMapM (annot tab) es) (← lookupT tab i))
+  | .ite i c t e => do pure (.ite (← annot tab c) (← annot tab t) (← annot tab e) (← lookupT tab i))
+  | .while _ c b => do pure (.while (← annot tab c) (← annot tab b))
+  | .call i f args => do pure (.call (← annot tab f) (← optMapM (annot tab) args) (← lookupT tab i))
+  | .un i op e => do pure (.un op (← annot tab e) (← lookupT tab i))
+  | .bin i op l r => do pure (.bin op (← annot tab l) (← annot tab r) (← lookupT tab i))
+  | .proj i e k => do pure (.proj (← annot tab e) k (← lookupT tab i))
+  | .field i e f => do pure (.field (← annot tab e) f (← lookupT tab i))
+  | .matchE i sc arms => do
+      let ts ← annot tab sc
+      pure (.matchE ts (← optMapM (annotArm tab ts.ty) arms) (← lookupT tab i))
+partial def annotArm (tab : List (Nat × Ty)) (sty : Ty) : IArm → Option TArm
+  | .mk p b => do pure (.mk (annotPat p sty) (← annot tab b))
+end
+
+def oblName : Obl → String
+  | .rel _ _ => "rel" | .same _ _ => "same" | .bound _ _ => "bound" | .inst _ _ => "inst"
+  | .projOk _ _ _ => "proj" | .fld _ _ _ => "field" | .bad => "error-node"
+
+def encObl : Obl → Sexp
+  | .rel a b => tg "rel" [encTy a, encTy b]
+  | .same a b => tg "same" [encTy a, encTy b]
+  | .bound x t => tg "bound" [Sexp.ofNat x, encTy t]
+  | .inst n t => tg "inst" [.atom n, encTy t]
+  | .projOk a i t => tg "proj" [encTy a, Sexp.ofNat i, encTy t]
+  | .fld a f t => tg "field" [encTy a, .atom f, encTy t]
+  | .bad => tg "error-node" []
+
+/-- an obligation on final types: `inst` = an instance of the signature by matching; a field access =
+the struct table instantiated at the type arguments -/
+def checkReal (E : Unify.Env) (bs : List (Nat × Ty)) (funs : List (String × Ty)) : Obl → Bool
+  | .inst n ty => match lookupAssoc n funs with
+    | some sch => Wt.instOf sch ty
+    | none => false
+  | .fld e f r => match decomposeStruct e with
+    | some (name, args) =>
+      match (resolveTypeName E name).2.find? (fun sd => sd.name == (resolveTypeName E name).1) with
+      | some sd => match instantiateField sd args f with
+        | .ok fty => Match.tyEqB fty r
+        | .error _ => false
+      | none => false
+    | none => false
+  | o => checkB Match.tyEqB bs funs o
+
+mutual
+partial def hasTVar : Ty → Bool
+  | .tvar _ => true
+  | .tuple ts => ts.any hasTVar
+  | .app t args => hasTVar t || args.any hasTVar
+  | .array _ e => hasTVar e
+  | .vec e => hasTVar e
+  | .ref e => hasTVar e
+  | .func ps r => ps.any hasTVar || hasTVar r
+  | _ => false
+end
+
+/-- `(realwt ok)` / `(realwt (fail OBL…))` / `(realwt untyped)` -/
+def realWt (c : Case) (final : List (Nat × Ty)) : Sexp :=
+  match annot final c.body with
+  | none => tg "realwt" [.atom "untyped"]
+  | some t =>
+    let bs := c.params ++ binders t
+    let os := obls t ++ [.rel t.ty c.ret]
+    let bad := os.filter fun o => !checkReal c.G.env bs c.G.funs o
+    let unres := final.any fun p => hasTVar p.2
+    if bad.isEmpty && !unres then tg "realwt" [.atom "ok"]
+    else tg "realwt" [tg "fail" ((bad.take 3).map encObl ++ (if unres then [.atom "unresolved-variable"] else []))]
+
+def decRecs : Sexp → Option (List (Nat × Ty))
+  | .list (.atom "final" :: rs) => optMapM (fun r => match r with
+      | .list [i, t] => do pure (← i.nat?, ← decTy t)
+      | _ => none) rs
+  | _ => none
+
+/-- the certificate of `infer_sound_partial` evaluated on the model's own run -/
+def certOf (c : Case) : Sexp :=
+  match genFn c.G c.params c.ret c.body { Store.empty with n := c.n0 } with
+  | none => tg "cert" [.atom "stuck"]
+  | some (t, s) =>
+    let os := obls t ++ [.rel t.ty c.ret]
+    let nofield := os.all fun o => match o with | .fld _ _ _ => false | _ => true
+    let noerr := os.all fun o => match o with | .bad => false | _ => true
+    if !nofield then tg "cert" [.atom "field"]
+    else if !noerr then tg "cert" [.atom "error-node"]
+    else tg "cert" [.atom (if justB s.cs (c.params ++ binders t) c.G.funs os then "true" else "false")]
+
 def runLine (l : String) : String :=
   let (id, rest) := splitTab l
-  match Sexp.parse rest with
+  let (inp, fin) := splitTab rest
+  match Sexp.parse inp with
   | some sx =>
     match decCase sx with
-    | some c => s!"{id}\t{runCase c}"
+    | some c =>
+      let base := s!"{id}\t{runCase c}\t{certOf c}"
+      if fin.isEmpty then base
+      else match (Sexp.parse fin).bind decRecs with
+        | some final => s!"{base}\t{realWt c final}"
+        | none => s!"{base}\t(realwt decode-error)"
     | none => s!"{id}\tdecode-error"
   | none => s!"{id}\tparse-error"
 
